@@ -23,7 +23,8 @@ RULE = ('Differential testing: Hypothesis-generated scripted scenarios '
         'exception types, rooms after every step - must be equal after '
         'renaming ids by order of first appearance. Non-trivial: the '
         'scenario exercises >=3 distinct API entry points and one fault or '
-        'malformed frame.')
+        'malformed frame.'
+        ' The client scenarios include life-cycle handlers (connect_error, disconnect) that fail for chosen namespaces.')
 ASSUMPTIONS = [
     'background handlers are joined FIFO on both sides before comparison',
     'exception *types* are compared, not messages',
